@@ -134,6 +134,7 @@ func (s *Server) RegisterService(sd *grpc.ServiceDesc, ss interface{}) {
 
 func (s *Server) Serve(ctx context.Context, rw RpcReadWriter) error {
 	h := newHandler(s.ctx, s, rw)
+	verifNewHandler(h)
 	err := h.serve(ctx)
 	h.cancelAndWaitForStreams()
 	return err
